@@ -21,10 +21,10 @@ vlib = bg.vlib
 
 EXH = {"quick": ["c23_exh_core1.cfg", "c23_exh_dolt1.cfg", "c23_exh_tc1.cfg"],
        "thorough": ["c23_exh_core1.cfg", "c23_exh_dolt1.cfg", "c23_exh_tc1.cfg", "c23_exh_core2.cfg", "c23_exh_three.cfg", "c23_exh_tc.cfg",
-                    "c23_exh_dolt3v.cfg", "c23_exh_dolt2.cfg"]}
-FAMILIES = {"quick": [("core", "c23_sim_core_quick.cfg", 100, 30), ("dolt", "c23_sim_dolt_quick.cfg", 100, 30), ("full", "c23_sim_full_quick.cfg", 80, 30)],
-            "thorough": [("core", "c23_sim_core_thorough.cfg", 600, 40), ("dolt", "c23_sim_dolt_thorough.cfg", 600, 40),
-                         ("full", "c23_sim_full_thorough.cfg", 500, 40)]}
+                    "c23_exh_dolt3v.cfg"]}
+FAMILIES = {"quick": [("core", "c23_sim_core_quick.cfg", 60, 30), ("dolt", "c23_sim_dolt_quick.cfg", 60, 30), ("full", "c23_sim_full_quick.cfg", 50, 30)],
+            "thorough": [("core", "c23_sim_core_thorough.cfg", 150, 40), ("dolt", "c23_sim_dolt_thorough.cfg", 150, 40),
+                         ("full", "c23_sim_full_thorough.cfg", 120, 40)]}
 
 
 def critical(c, r):
@@ -69,16 +69,16 @@ def run(ctx):
         if first:
             ctx.binding_selftest(binary, cs[0], bg.corrupt_last_store, args=["replay"], env=env)
             first = False
-        ctx.replay_behaviours(binary, cs, args=["replay"], critical=critical, wrap=lambda c: c, env=env, timeout=ctx.q(3600, 14400),
+        bg.replay_chunked(ctx, binary, cs, args=["replay"], critical=critical, wrap=lambda c: c, env=env, timeout=ctx.q(3600, 14400),
                               fingerprint=lambda c, r: "C23:" + str(r.get("fp")))
     # transition tour: shortest behaviours into sampled merge / conflict commits of a bounded config (breadth-first TLC)
     tour = bg.tour_behaviours(ctx, "Txn.tla", ctx.q("c23_tour_quick.cfg", "c23_tour_thorough.cfg"), timeout=ctx.q(1800, 7200))
     ctx.cov.setdefault("action_histogram", {})["tour"] = bg.action_histogram(tour)
-    ctx.replay_behaviours(binary, bg.txn_cases(ctx, tour, "tour", consts=bg.TOUR_CONSTS), args=["replay"], critical=critical, wrap=lambda c: c, env=env, timeout=ctx.q(3600, 14400),
+    bg.replay_chunked(ctx, binary, bg.txn_cases(ctx, tour, "tour", consts=bg.TOUR_CONSTS), args=["replay"], critical=critical, wrap=lambda c: c, env=env, timeout=ctx.q(3600, 14400),
                           fingerprint=lambda c, r: "C23:" + str(r.get("fp")))
     # T mode
     k = bg.TXN_CONSTS["quick"]
-    ncases = ctx.q(6, 30)
+    ncases = ctx.q(6, 12)
     cases = [dict(k, workload="txn", Sessions=["s1", "s2", "s3"], Vals=[0, 1, 2], M=ctx.q(5, 7), seed=ctx.seed * 1000 + i,
                   binding=dict(bg.BINDINGS["quick"][i % 3], seed=i)) for i in range(ncases)]
     bg.stress_validate(ctx, "C23", binary, cases, "TraceTxn.tla", "c23_trace.cfg", corrupt=corrupt_trace, nontrivial=trace_nontrivial)
